@@ -136,8 +136,9 @@ func (w *randomWorkload) Next(block int) []rig.Tx {
 		}
 		// two more bindings, one of which is disabled in the next block: the provider of an oracle-seeded request is
 		// drawn among several bindings of which not all are available
+		// (they promise an answer within the longest time a binding may name: the service's maximum request timeout)
 		for _, p := range w.extraProvs {
-			txs = append(txs, r.Mk(p, &rndTag{Kind: "setup"}, svcBind(p, servicetypes.RandomServiceName, "2stake", 100000, 5)))
+			txs = append(txs, r.Mk(p, &rndTag{Kind: "setup"}, svcBind(p, servicetypes.RandomServiceName, "2stake", 100000, uint64(r.K.Service.GetParams(r.Ctx()).MaxRequestTimeout))))
 		}
 		// two other services whose names begin with the random service's name, with providers of their own (below)
 		if len(r.Accounts) >= 6 {
@@ -339,6 +340,11 @@ func (w *randomWorkload) Observe(br *rig.BlockRecord) {
 							for _, p := range rc.Providers {
 								w.run.Eval(1)
 								if pa, err := sdk.AccAddressFromBech32(p); err == nil {
+									if bd, bound := r.K.Service.GetServiceBinding(r.Ctx(), servicetypes.RandomServiceName, pa); bound && bd.Available && int64(bd.QoS) > rc.Timeout {
+										// (the service module sends a request only to providers that promise an answer within the timeout)
+										w.run.Violation("C18:random:seed-request-times-out-before-its-provider-promises-to-answer", map[string]any{"height": H, "provider": p, "qos": bd.QoS, "timeout": rc.Timeout},
+											"the seed request of oracle request %s (made at %d by %s) is addressed to %s with a timeout of %d blocks, below the %d blocks within which that provider's binding promises an answer: it will never be sent", id, H, m.Consumer, p, rc.Timeout, bd.QoS)
+									}
 									if _, bound := r.K.Service.GetServiceBinding(r.Ctx(), servicetypes.RandomServiceName, pa); !bound {
 										w.run.Violation("C18:random:seed-request-addressed-to-a-provider-not-bound-to-the-random-service", map[string]any{"height": H, "provider": p},
 											"the seed request of oracle request %s (made at %d by %s) is addressed to %s, which has no binding of the service %q: nobody can ever answer it", id, H, m.Consumer, p, servicetypes.RandomServiceName)
